@@ -121,6 +121,12 @@ pub fn compare(m: &Machine, c: &Cpu, mem: &BusMem) -> Option<(String, String)> {
         };
         return Some((field.into(), format!("cpu expected {:x?} observed {:x?}", c, got)));
     }
+    // the named flag getters are the public view of FR bits 0-3
+    let rg = m.registers();
+    let named = (rg.carry_flag() as u8) | (rg.zero_flag() as u8) << 1 | (rg.negative_flag() as u8) << 2 | (rg.interrupt_enable_flag() as u8) << 3;
+    if named != c.fr & 0x0F {
+        return Some(("flag-getters".into(), format!("carry/zero/negative/IE getters give {:#06b}, FR is {:#04x}", named, c.fr)));
+    }
     if m.bus().memory()[..] != mem.ram[..] {
         let i = (0..240).find(|&i| m.bus().memory()[i] != mem.ram[i]).unwrap();
         return Some(("ram".into(), format!("ram[{:#04x}] expected {:#04x} observed {:#04x}", i, mem.ram[i], m.bus().memory()[i])));
